@@ -40,27 +40,30 @@ type c07Kind struct {
 }
 
 var c07Kinds = map[string]c07Kind{
-	"object-syntax":      {src: "{{ a b%NL% c }}", parseTime: true},
-	"object-syntax2":     {src: "{{ 1 |%NL% }}", parseTime: true},
-	"tag-syntax":         {src: "{% assign%NL% x %}", parseTime: true},
-	"block-syntax":       {src: "{% if a b%NL% c %}x{% endif %}", parseTime: true},
-	"for-syntax":         {src: "{% for a b c %}x{% endfor %}", parseTime: true},
-	"unknown-tag":        {src: "{% nosuchtag%NL% x %}", parseTime: true, names: "nosuchtag"},
-	"unknown-filter":     {src: "{{ 1 |%NL% nosuchfilter }}", names: "nosuchfilter"},
-	"unknown-filter-tag": {src: "{% assign v = 1%NL% |%NL% nosuchfilter %}", names: "nosuchfilter"},
-	"unknown-filter-if":  {src: "{% if 1 | nosuchfilter %}x{% endif %}", names: "nosuchfilter"},
-	"filter-error":       {src: "{{ 1 |%NL% fail }}", names: "verif-sentinel", cause: "sentinel"},
-	"filter-error-for":   {src: "{% for q in a | fail %}x{% endfor %}", names: "verif-sentinel", cause: "sentinel"},
-	"division-by-zero":   {src: "{{ 1 | divided_by:%NL% 0 }}", names: "zero"},
-	"type-error":         {src: "{{ \"a\" |%NL% plus: 1 }}", cause: "typeerror"},
-	"type-error-date":    {src: "{{ \"not a date\" |%NL% date: \"%Y\" }}", cause: "typeerror"},
-	"type-error-slice":   {src: "{{ \"abc\" | slice:%NL% \"x\" }}", cause: "typeerror"},
-	"type-error-lazy1":   {src: "{{ \"hello wide world\" |%NL% truncate: \"abc\" }}", cause: "typeerror"},
-	"type-error-lazy2":   {src: "{{ 1.5 | round:%NL% \"x\" }}", cause: "typeerror"},
-	"type-error-lazy3":   {src: "{{ \"abc\" | slice: 0,%NL% \"x\" }}", cause: "typeerror"},
-	"type-error-lazy4":   {src: "{% assign v = \"a b c\" | truncatewords: \"two\" %}", cause: "typeerror"},
-	"type-error-assign":  {src: "{% assign v = \"x\" |%NL% times: 2 %}", cause: "typeerror"},
-	"type-error-if":      {src: "{% if \"a\" | plus: 1 %}x{% endif %}", cause: "typeerror"},
+	"object-syntax":        {src: "{{ a b%NL% c }}", parseTime: true},
+	"object-syntax2":       {src: "{{ 1 |%NL% }}", parseTime: true},
+	"tag-syntax":           {src: "{% assign%NL% x %}", parseTime: true},
+	"block-syntax":         {src: "{% if a b%NL% c %}x{% endif %}", parseTime: true},
+	"for-syntax":           {src: "{% for a b c %}x{% endfor %}", parseTime: true},
+	"unknown-tag":          {src: "{% nosuchtag%NL% x %}", parseTime: true, names: "nosuchtag"},
+	"unknown-filter":       {src: "{{ 1 |%NL% nosuchfilter }}", names: "nosuchfilter"},
+	"unknown-filter-tag":   {src: "{% assign v = 1%NL% |%NL% nosuchfilter %}", names: "nosuchfilter"},
+	"unknown-filter-if":    {src: "{% if 1 | nosuchfilter %}x{% endif %}", names: "nosuchfilter"},
+	"filter-error":         {src: "{{ 1 |%NL% fail }}", names: "verif-sentinel", cause: "sentinel"},
+	"filter-error-for":     {src: "{% for q in a | fail %}x{% endfor %}", names: "verif-sentinel", cause: "sentinel"},
+	"division-by-zero":     {src: "{{ 1 | divided_by:%NL% 0 }}", names: "zero"},
+	"type-error":           {src: "{{ \"a\" |%NL% plus: 1 }}", cause: "typeerror"},
+	"type-error-date":      {src: "{{ \"not a date\" |%NL% date: \"%Y\" }}", cause: "typeerror"},
+	"type-error-slice":     {src: "{{ \"abc\" | slice:%NL% \"x\" }}", cause: "typeerror"},
+	"type-error-lazy1":     {src: "{{ \"hello wide world\" |%NL% truncate: \"abc\" }}", cause: "typeerror"},
+	"type-error-lazy2":     {src: "{{ 1.5 | round:%NL% \"x\" }}", cause: "typeerror"},
+	"type-error-lazy3":     {src: "{{ \"abc\" | slice: 0,%NL% \"x\" }}", cause: "typeerror"},
+	"type-error-lazy4":     {src: "{% assign v = \"a b c\" | truncatewords: \"two\" %}", cause: "typeerror"},
+	"type-error-nil-bound": {src: "{% for q in (1..undefined_v) %}x{% endfor %}", cause: "typeerror"},
+	"type-error-nil-arg":   {src: "{{ \"hello wide world\" |%NL% truncate: undefined_v }}", cause: "typeerror"},
+	"type-error-nil-round": {src: "{{ 1.5 | round:%NL% undefined_v }}", cause: "typeerror"},
+	"type-error-assign":    {src: "{% assign v = \"x\" |%NL% times: 2 %}", cause: "typeerror"},
+	"type-error-if":        {src: "{% if \"a\" | plus: 1 %}x{% endif %}", cause: "typeerror"},
 	// a method of a bound struct that returns an error: the render fails with it
 	"method-error":     {src: "{{ me.Fail |%NL% upcase }}", names: "verif-sentinel", cause: "sentinel"},
 	"method-error-if":  {src: "{% if me.Fail %}x{% endif %}", names: "verif-sentinel", cause: "sentinel"},
